@@ -84,7 +84,9 @@ def property_parts(ctx, exe, sizes, lat=None):
     cs, st = cases.run_case_harness(ctx, exe, ["pairs", sizes["pairs"]])
     lat.take(cs)
     cov["boxpairs_evaluated"] = int(st.get("boxpairs", 0)); cov["boxpair_failures"] = int(st.get("boxpair_failures", 0))
-    cov["exhaustive"] = "all %d (ordered pair of boxes with integer corners in [0,3]^3) x 3 OpTypes" % cov["boxpairs_evaluated"] if st.get("boxpairs_exhaustive") == "1" else False
+    cov["exhaustive"] = False
+    if st.get("boxpairs_exhaustive") == "1":
+        cov["exhaustive_parts"] = "all %d (ordered pair of boxes with integer corners in [0,3]^3) x 3 OpTypes" % cov["boxpairs_evaluated"]
     if sizes.get("triples") is not None:
         cs, st = cases.run_case_harness(ctx, exe, ["triples", sizes["triples"]])
         lat.take(cs)
